@@ -16,6 +16,10 @@ EVENTS = {
     'okA': ('BOS', 'LAX', '2019-01-01T12:00:00', None, 'ok'),
     'okB': ('DEN', 'ABQ', '2019-01-31T08:30:00', None, 'ok'),
     'okA_mass': ('BOS', 'LAX', '2019-01-01T12:00:00', 75000.0, 'ok'),
+    'okC': ('DEN', 'LAX', '2019-01-01T12:00:00', None, 'ok'),
+    # the same missions flown with a second performance model (same ceiling, fuel flow x 1.12)
+    'okA@pm2': ('BOS', 'LAX', '2019-01-01T12:00:00', None, 'ok'),
+    'okB@pm2': ('DEN', 'ABQ', '2019-01-31T08:30:00', None, 'ok'),
     'unknown_airport': ('BOS', 'ZZZ', '2019-01-01T12:00:00', None, 'ValueError:unknown airport'),
     'unknown_origin': ('QQQ', 'LAX', '2019-01-01T12:00:00', None, 'ValueError:unknown airport'),
     'high_airport': ('BOS', 'XHI', '2019-01-01T12:00:00', None, 'ValueError'),
@@ -26,9 +30,11 @@ EVENTS = {
     'wx_outside_domain': ('BOS', 'LAX', '2024-09-01T12:00:00', None, 'ValueError'),
 }
 ALPHABETS = {
-    'plain': ['okA', 'okB', 'okA_mass', 'unknown_airport', 'unknown_origin', 'high_airport', 'mass_out_of_envelope'],
-    'plain-small': ['okA', 'okB', 'unknown_airport', 'high_airport'],
+    'plain': ['okA', 'okB', 'okA@pm2', 'okA_mass', 'unknown_airport', 'unknown_origin', 'high_airport', 'mass_out_of_envelope'],
+    'plain-small': ['okA', 'okB', 'okB@pm2', 'unknown_airport', 'high_airport'],
+    'iter-lhv': ['okC', 'okB', 'okB@pm2', 'unknown_airport'],
     'weather': ['wx_ok', 'wx_missing_file', 'wx_outside_domain', 'unknown_airport'],
+    'weather-small': ['wx_ok', 'wx_missing_file', 'wx_outside_domain'],
 }
 BUILDERS = {
     'noiter': dict(iterate_mass=False),
@@ -36,6 +42,10 @@ BUILDERS = {
     'iter-tight': dict(iterate_mass=True, max_mass_iters=50, mass_iter_reltol=1e-4),
     'iter-one': dict(iterate_mass=True, max_mass_iters=1, mass_iter_reltol=1e-6),
     'weather': dict(iterate_mass=False, use_weather=True),
+    # low heating value: the first mass-iteration residual is negative (over-burn) on some missions
+    'iter-lowlhv': dict(iterate_mass=True, max_mass_iters=5, mass_iter_reltol=1e-2, legacy=dict(fuel_LHV=4.38e6)),
+    'iter-lowlhv-tight': dict(iterate_mass=True, max_mass_iters=50, mass_iter_reltol=1e-4, legacy=dict(fuel_LHV=4.38e6)),
+    'weather-iter': dict(iterate_mass=True, max_mass_iters=5, mass_iter_reltol=1e-2, use_weather=True),
 }
 INTERNAL = ('AttributeError', 'KeyError', 'TypeError', 'IndexError', 'NameError', 'AssertionError', 'UnboundLocalError')
 
@@ -51,8 +61,25 @@ def _init():
     ap._airports = None
     env.load_config(overrides=[env.HARNESS_DATA / 'C17_airports'])
     _W['pm'] = env.sample_performance_model()
+    _W['pm2'] = _second_model()
     ap.airport('BOS')  # bind the airports table while the harness override is active
     _W['fresh'] = {}
+
+
+def _second_model():
+    import tomllib
+
+    from AEIC.performance.models import PerformanceModel
+    from vf import env
+
+    path = env.REPO / 'src' / 'AEIC' / 'data' / 'performance' / 'sample_performance_model.toml'
+    with open(path, 'rb') as f:
+        d = tomllib.load(f)
+    fp = d['flight_performance']
+    iff = [c.lower() for c in fp['cols']].index('fuel_flow')
+    d = dict(d)
+    d['flight_performance'] = {'cols': fp['cols'], 'data': [[v * 1.12 if i == iff else v for i, v in enumerate(r)] for r in fp['data']]}
+    return PerformanceModel.from_data(d)
 
 
 def _mission(ev):
@@ -67,8 +94,10 @@ def _mission(ev):
 def _builder(bname):
     import AEIC.trajectories.builders as tb
 
-    return tb.LegacyBuilder(options=tb.Options(**BUILDERS[bname]),
-                            legacy_options=tb.LegacyOptions(frac_step_clm=STEP, frac_step_crz=STEP, frac_step_des=STEP))
+    o = dict(BUILDERS[bname])
+    lo = dict(frac_step_clm=STEP, frac_step_crz=STEP, frac_step_des=STEP)
+    lo.update(o.pop('legacy', {}))
+    return tb.LegacyBuilder(options=tb.Options(**o), legacy_options=tb.LegacyOptions(**lo))
 
 
 def _digest(traj):
@@ -85,11 +114,12 @@ def _digest(traj):
 
 def _fly(builder, ev):
     m, mass = _mission(ev)
+    pm = _W['pm2'] if ev.endswith('@pm2') else _W['pm']
     try:
         if mass is None:
-            t = builder.fly(_W['pm'], m)
+            t = builder.fly(pm, m)
         else:
-            t = builder.fly(_W['pm'], m, starting_mass=mass)
+            t = builder.fly(pm, m, starting_mass=mass)
     except Exception as ex:  # noqa: BLE001
         ctx = type(ex.__context__).__name__ if ex.__context__ is not None else None
         return ('exc', type(ex).__name__, str(ex)[:160], ctx), None
